@@ -475,11 +475,98 @@ def run_invalid(ctx, rng, n):
                 ctx.sample({"variant": name, "class": cls, "dyndep_file": text, "build_exit": rb_.get("exit"), "err": rb_.get("err")})
 
 
+def run_invalid_clean_producer(ctx, rng, n):
+    """'... produced by statements that are clean': the dyndep file on disk is invalid for the graph although its producer has
+    nothing to do (the file was cut short, edited, left by another version of the scanner).  Ninja loads it either while
+    scanning or - when the producer is clean but has to wait for an order-only input that is rebuilt - in the middle of the
+    build, at the moment the producer is found to need no work.  Either way the build must stop with an error."""
+    from ..simlib import St, dyndep_text
+    items = []
+    for k in range(n):
+        sc = dyndep_scenario(rng, "C11c-%d-%d" % (ctx.seed, k), static=False, respell=False)
+        scan = next((s_ for s_ in sc["stmts"] if s_["kind"] == "scan" and s_["outs"][0] == "dd/x.dd"), None)
+        if scan is None:
+            continue
+        ddp = "dd/x.dd"
+        # a tool the scanner is ordered after, with further users declared before and after the scanner
+        sc["sources"]["tool.in"] = "// tool\n"
+        tool = St("tool", ["tool.bin"], ins=["tool.in"])
+        waits = rng.random() < 0.7
+        if waits:
+            scan["oins"] = scan["oins"] + ["tool.bin"]
+        users = [St("tu%d" % i, ["o/tu%d.ok" % i], ins=["tool.bin"]) for i in range(rng.randint(1, 2))]
+        idx = sc["stmts"].index(scan)
+        sc["stmts"].insert(rng.randint(0, idx), tool)
+        for u in users:
+            sc["stmts"].insert(rng.randint(0, len(sc["stmts"])), u)
+        sc["defaults"] = []
+        good = dyndep_text(scan, sc["sources"])
+        lines = good.split("\n")[:-1]
+        variants = [("trunc", good[:rng.randint(len(lines[0]) + 1, max(len(lines[0]) + 1, len(good) - 2))])]
+        if len(lines) > 1:
+            li = rng.randint(1, len(lines) - 1)
+            variants.append(("del-line", "\n".join(lines[:li] + lines[li + 1:]) + "\n"))
+            variants.append(("dup-line", "\n".join(lines[:li + 1] + lines[li:]) + "\n"))
+        bl = [l for l in lines if l.startswith("build ")]
+        if bl:
+            left, right = bl[0].split(": dyndep", 1)
+            variants.append(("new-output-twice", good.replace(bl[0], left + (" " if " | " in left else " | ") + "o/sh.mod o/sh.mod: dyndep" + right, 1)))
+        name, text = rng.choice(variants)
+        if classify(sc, ddp, text) != "invalid":
+            continue
+        steps = [{"op": "build", "targets": [], "j": 2, "k": 1, "sched": {"mode": "prng", "seed": 1}},
+                 {"op": "write", "path": ddp, "content": text}]
+        if rng.random() < 0.8:
+            steps.append({"op": "touch", "path": "tool.in"})
+        served = [s_["outs"][0] for s_ in sc["stmts"] if s_["dyndep"] == ddp]
+        tg = rng.choice(([], served + [u["outs"][0] for u in users], served))
+        steps.append({"op": "build", "targets": tg, "j": rng.choice((1, 2, 3)), "k": 1, "sched": {"mode": "prng", "seed": rng.randint(1, 10 ** 6)}})
+        scn = simlib.scenario_json(sc, steps, sid="%s-%s" % (sc["id"], name))
+        items.append((scn, name, text, waits))
+    results = {}
+
+    def handler(scn, res, err):
+        results[scn["id"]] = res
+    simlib.run_scenarios([x[0] for x in items], handler)
+    for scn, name, text, waits in items:
+        res = results.get(scn["id"])
+        builds = [x for x in (res or []) if x.get("op") == "build"]
+        if len(builds) < 2:
+            ctx.inconclusive += 1
+            continue
+        t0, t1 = builds[0].get("trace", {}), builds[1].get("trace", {})
+        rep = {"scenario": scn, "variant": name}
+        ctx.evaluations += 1
+        crashed = next((t for t in (t0, t1) if t.get("crash")), None)
+        if crashed:
+            ctx.violation("C11/nsim-crash/invalid-dyndep/" + (util.san_signature(crashed.get("stderr", "")) or "crash"),
+                          "%s: %s" % (scn["id"], crashed.get("stderr", "")[-1500:]), rep)
+            continue
+        if t0.get("result", {}).get("exit") != 0:
+            ctx.inconclusive += 1
+            ctx.count("clean_producer_setup_failed")
+            continue
+        r1 = t1.get("result", {})
+        started = [e["o"] for e in t1.get("events", []) if e["e"] == "S"]
+        ctx.count("invalid_file_behind_clean_producer" + ("_loaded_mid_build" if waits and "tool.bin" in started else ""))
+        ctx.nontrivial(scn["id"])
+        if "dd/x.dd" in started:
+            ctx.count("clean_producer_ran_anyway")      # (then the file was made anew: nothing to judge)
+            continue
+        if r1.get("exit") == 0:
+            ctx.violation("C11/invalid-dyndep-accepted/build/clean-producer/%s" % name,
+                          "%s: the dyndep file on disk is %r (invalid for this graph), its producer has nothing to do; the build ran %s and succeeded" %
+                          (scn["id"], text, started), rep)
+        elif not (r1.get("err") or ""):
+            ctx.violation("C11/invalid-dyndep-no-message/clean-producer/%s" % name, "%s: build failed without an error message" % scn["id"], rep)
+
+
 def run(ctx):
     quick = ctx.tier == "quick"
     rng = random.Random(ctx.seed * 7907 + 11)
-    run_twins(ctx, rng, 2500 if quick else 40000)
-    run_invalid(ctx, rng, 60 if quick else 800)
+    run_twins(ctx, rng, 2500 if quick else 20000)
+    run_invalid(ctx, rng, 60 if quick else 400)
+    run_invalid_clean_producer(ctx, rng, 250 if quick else 4000)
     ctx.rule = ("twin scenarios: 1..4 dyndep-served statements (+ base graph, scanner or pre-existing file) x 1..4 rounds; invalid "
                 "family: every truncation offset (<=60 sampled per file), every line deletion/duplication, 12 structural variants per "
                 "file; distinct_nontrivial = twin build steps in which commands ran + invalid variants")
